@@ -133,8 +133,10 @@ def run_unit(seed=None, unit=None, tier="quick", stats=None, prop="C06"):
         out = {"waiting": None, "payloads": 0, "closed": False, "ended": False, "error": None}
         ann_labels = set()
 
+        close_delay = bool(st.draw(2, "w2_close_delay"))
+
         async def main(world=world, ctx=ctx, out=out, close_after=close_after, sim=sim,
-                       spec=spec, ann_labels=ann_labels):
+                       spec=spec, ann_labels=ann_labels, close_delay=close_delay):
             work = world.build(spec.initial)
             ctx.initial_computations = list(world.computations)
             ctx.initial_queues = list(world.queues)
@@ -145,6 +147,9 @@ def run_unit(seed=None, unit=None, tier="quick", stats=None, prop="C06"):
             k = 0
             while True:
                 if k == close_after:
+                    if close_delay:
+                        out["waiting"] = "gate"
+                        await sim.external("gate:close", "gate", ("value", None)).fut
                     out["waiting"] = "aclose"
                     try:
                         await it.aclose()
